@@ -25,6 +25,8 @@ type smtSession struct {
 	dead     bool
 	name     string
 	base     string // answer to the obligation's own check-sat: sat, or unknown (candidate model)
+	args     []string
+	script   string // everything sent before the first check-sat (to restart a fresh solver)
 }
 
 func startSession(name string, args []string, deadline time.Time) (*smtSession, error) {
@@ -129,6 +131,13 @@ func (s *smtSession) checkSat() string {
 	return strings.TrimSpace(a)
 }
 
+// incompleteOnly: after `unknown`, did the solver stop because its quantifier / array reasoning is incomplete (then the
+// candidate model satisfies everything it did look at), and not because it ran out of time?
+func (s *smtSession) incompleteOnly() bool {
+	a, err := s.ask("(get-info :reason-unknown)")
+	return err == nil && strings.Contains(a, "incomplete")
+}
+
 // getValues evaluates terms in the current model.
 func (s *smtSession) getValues(terms []string) ([]*sx, error) {
 	var out []*sx
@@ -197,9 +206,9 @@ type rBlock struct {
 }
 
 const (
-	replayMaxLen     = 4096    // longest slice / string reconstructed
+	replayMaxLen     = 1024    // longest slice / string reconstructed
 	replayMaxObjects = 400     // heap objects
-	replayMaxQueries = 60000   // terms evaluated in the model
+	replayMaxQueries = 25000   // terms evaluated in the model
 	replayMaxBytes   = 64 << 20 // total size of reconstructed blocks
 )
 
@@ -276,19 +285,42 @@ func (m *modelReader) shapeCmds(cmds string) bool {
 		b.WriteString(p)
 	}
 	m.npinned = len(m.pins)
-	b.WriteString("(push 1)\n" + cmds)
+	b.WriteString("(push 1)\n" + cmds + "(set-option :timeout 15000)\n")
 	if err := m.s.write(b.String()); err != nil {
 		panic(unsupportedErr{"model extraction: " + err.Error()})
 	}
-	if r := m.s.checkSat(); r == m.s.base {
+	r := m.s.checkSat()
+	m.s.write("(set-option :timeout 4294967295)\n")
+	if r == m.s.base && (r == "sat" || m.s.incompleteOnly()) {
 		if _, err := m.s.getValues([]string{"H0_W"}); err == nil {
 			return true
 		}
 	}
-	m.s.write("(pop 1)\n")
-	if r := m.s.checkSat(); r != m.s.base {
+	if r == "unsat" {
+		m.s.write("(pop 1)\n(set-option :timeout 20000)\n")
+		r2 := m.s.checkSat()
+		m.s.write("(set-option :timeout 4294967295)\n")
+		if r2 == m.s.base {
+			return false
+		}
+	}
+	// a timed-out attempt leaves the solver in a slow state: go back to a fresh solver with everything read so far pinned
+	if m.s.script == "" {
 		panic(unsupportedErr{"model extraction: the solver lost the model while shaping (" + r + ")"})
 	}
+	old := m.s
+	old.close()
+	ns, err := startSession(old.name, old.args, old.deadline)
+	if err != nil {
+		panic(unsupportedErr{"model extraction: " + err.Error()})
+	}
+	ns.base, ns.script, ns.args = old.base, old.script, old.args
+	m.s = ns
+	ns.write(ns.script + strings.Join(m.pins, ""))
+	if r := ns.checkSat(); r != ns.base {
+		panic(unsupportedErr{"model extraction: the solver lost the model while shaping (" + r + ")"})
+	}
+	m.shapes = 1000 // no further shaping in the restarted solver
 	return false
 }
 
